@@ -12,6 +12,7 @@ import (
 	"storj.io/drpc/drpcserver"
 	"verifharness/corr"
 	"verifharness/director"
+	sm "verifharness/suites/stream"
 )
 
 // netEnd adapts a director.End to net.Conn and counts Close calls.
@@ -92,7 +93,7 @@ func famServe(o *corr.Out) {
 		_ = w
 		lis := newListener()
 		ctx, cancel := context.WithCancel(context.Background())
-		srv := drpcserver.New(handler{&World{D: d}})
+		srv := drpcserver.New(handler{&World{D: d, enc: &sm.Enc{}}})
 		d.Go("serve", func() string { return errName(srv.Serve(ctx, lis)) })
 		d.Settle()
 		p, a, b := director.NewPipe()
